@@ -169,6 +169,17 @@ class Extractor:
             return
         if isinstance(st, ast.Assign):
             if len(st.targets) == 1 and isinstance(st.targets[0], ast.Subscript):
+                t0 = st.targets[0]
+                if isinstance(t0.value, ast.Name) and isinstance(self.env.get(t0.value.id), list):
+                    # item store into a python list (e.g. a target shape being built)
+                    i = self.expr(t0.slice)
+                    if not (isinstance(i, SV) and not i.labels and getattr(i.e, "is_Integer", False)):
+                        self.err("list item store with a non-constant index", st)
+                    lst = self.env[t0.value.id]
+                    if not -len(lst) <= int(i.e) < len(lst):
+                        self.err("list index out of range", st)
+                    lst[int(i.e)] = self.expr(st.value)
+                    return
                 self.store(st)
                 return
             v = self.expr(st.value)
@@ -217,6 +228,11 @@ class Extractor:
                 for s2 in (st.body if tv0 else st.orelse):
                     self.stmt(s2)
                 return
+            dec = self.decide_scalar_test(st.test)
+            if dec is not None:
+                for s2 in (st.body if dec else st.orelse):
+                    self.stmt(s2)
+                return
             choices = self.shared.get("choices")
             if choices is not None:
                 # a scalar, data-dependent condition (e.g. a comparison of angular momenta, or a flag bound from one)
@@ -242,6 +258,53 @@ class Extractor:
         if isinstance(st, (ast.Pass, ast.Raise)):
             return
         self.err(f"statement {type(st).__name__}", st)
+
+    def decide_scalar_test(self, test):
+        """`i > 0` on loop variables / constants: True / False when the comparison has the same outcome for every value the loop
+        variables take here (lower bounds of the enclosing loops), else None."""
+        if not (isinstance(test, ast.Compare) and len(test.ops) == 1 and isinstance(test.ops[0], (ast.Lt, ast.LtE, ast.Gt, ast.GtE, ast.Eq, ast.NotEq))):
+            return None
+        names = {n.id for n in ast.walk(test) if isinstance(n, ast.Name)}
+        loopvars = {str(v) for v, _l, _h in self.loops}
+        if not all(nm in loopvars or (isinstance(self.env.get(nm), SV) and not self.env[nm].labels and self.env[nm].e.is_number) for nm in names):
+            return None
+        try:
+            l, r = self.expr(test.left), self.expr(test.comparators[0])
+        except AnalysisError:
+            return None
+        if not (isinstance(l, SV) and isinstance(r, SV) and not l.labels and not r.labels):
+            return None
+        d = l.e - r.e
+        for n, (v, lo, _hi) in enumerate(self.loops):
+            if not getattr(lo, "is_Integer", False) and d.has(v):
+                return None
+            d = d.subs(v, lo + sp.Symbol(f"_t{n}", integer=True, nonnegative=True))
+        d = sp.expand(d)
+        op = type(test.ops[0])
+        table = {ast.Gt: (d.is_positive, d.is_nonpositive), ast.GtE: (d.is_nonnegative, d.is_negative), ast.Lt: (d.is_negative, d.is_nonnegative),
+                 ast.LtE: (d.is_nonpositive, d.is_positive), ast.Eq: (d.is_zero, d.is_nonzero), ast.NotEq: (d.is_nonzero, d.is_zero)}[op]
+        if table[0]:
+            return True
+        if table[1]:
+            return False
+        return None
+
+    def loop_split_point(self, st, lo):
+        """Smallest s such that every `if <loop variable> <op> <constant>` in the body has one outcome for all values >= s."""
+        var = st.target.id
+        s = None
+        for n in ast.walk(st):
+            if isinstance(n, (ast.If, ast.IfExp)) and isinstance(n.test, ast.Compare) and len(n.test.ops) == 1:
+                a, b, op = n.test.left, n.test.comparators[0], type(n.test.ops[0])
+                if isinstance(b, ast.Name) and b.id == var and isinstance(a, ast.Constant):
+                    a, b = b, a
+                    op = {ast.Lt: ast.Gt, ast.Gt: ast.Lt, ast.LtE: ast.GtE, ast.GtE: ast.LtE}.get(op, op)
+                if isinstance(a, ast.Name) and a.id == var and isinstance(b, ast.Constant) and isinstance(b.value, int) and not isinstance(b.value, bool):
+                    c0 = b.value
+                    pt = {ast.Gt: c0 + 1, ast.GtE: c0, ast.Eq: c0 + 1, ast.NotEq: c0 + 1, ast.Lt: c0, ast.LtE: c0 + 1}.get(op)
+                    if pt is not None:
+                        s = pt if s is None else max(s, pt)
+        return s
 
     def bind(self, t, v, st):
         if isinstance(t, ast.Name):
@@ -302,9 +365,24 @@ class Extractor:
                 return
             self.err("loop that is not `for v in range(...)`", st)
         args = [self.as_int(self.expr(a), st) for a in it.args]
+        if args and all(getattr(a, "is_Integer", False) for a in args) and len(list(range(*[int(a) for a in args]))) <= 8:
+            # a loop over a fixed handful of values (Cartesian directions, the four shells): unrolled, the variable is a number
+            for k in range(*[int(a) for a in args]):
+                self.env[st.target.id] = SV(sp.Integer(k), [])
+                for s in st.body:
+                    self.stmt(s)
+            return
         lo, hi = (sp.Integer(0), args[0]) if len(args) == 1 else (args[0], args[1])
         if len(args) == 3:
             self.err("range with a step", st)
+        split = self.loop_split_point(st, lo)
+        if split is not None and getattr(lo, "is_Integer", False) and 0 < split - int(lo) <= 3:
+            # the first iterations take a different branch (`if i > 0:`): they are run one by one, the rest symbolically
+            for k in range(int(lo), split):
+                self.env[st.target.id] = SV(sp.Integer(k), [])
+                for s in st.body:
+                    self.stmt(s)
+            lo = sp.Integer(split)
         v = sp.Symbol(st.target.id, integer=True)
         self.loops.append((v, lo, hi))
         self.env[st.target.id] = SV(v, [])
@@ -370,8 +448,16 @@ class Extractor:
             # store into something that is not a recursion table (e.g. masked store): opaque
             self.err(f"store into `{ast.unparse(t.value)}` which is not a recursion table", st)
         table = self.tables[t.value.id]
-        index = self.index_of(table, t.slice, st)
-        rhs = self.expr(st.value)
+        index = self.index_of(table, self.materialise_slice(t.slice), st)
+        try:
+            rhs = self.expr(st.value)
+        except LabelMismatch as lm:
+            # a window of length one set against a longer window: numpy broadcasts it without complaint, so the statement still runs;
+            # if the table requested by this caller does not reach the target (empty slice / empty loop) nothing depends on the value
+            if getattr(lm, "soft", False) and store_outside_table(Store(self.func, st, table, index, None, list(self.loops)), table):
+                self.shared.setdefault("dead_stores", []).append((self.func, st, lm.msg))
+                return
+            raise
         s = Store(self.func, st, table, index, rhs, list(self.loops))
         s.target_labels = self.labels_after_index(table, index)
         self.stores.append(s)
@@ -483,7 +569,9 @@ class Extractor:
                 out.append(x)
             else:
                 if x.base != y.base and not (self.compatible(x, y)):
-                    raise LabelMismatch(f"`{ast.unparse(node)[:90]}` aligns axis {x} with axis {y}", node)
+                    lm = LabelMismatch(f"`{ast.unparse(node)[:90]}` aligns axis {x} with axis {y}", node, (x.base, y.base))
+                    lm.soft = bool(x.unit or y.unit)
+                    raise lm
                 out.append(x)
         return out
 
@@ -520,6 +608,12 @@ class Extractor:
     def binop(self, op, l, r, node):
         if isinstance(l, tuple) and isinstance(r, tuple) and isinstance(op, ast.Add):
             return l + r
+        if isinstance(l, list) and isinstance(r, list) and isinstance(op, ast.Add):
+            return l + r
+        if isinstance(op, ast.Mult):
+            for seq, n in ((l, r), (r, l)):
+                if isinstance(seq, (tuple, list)) and isinstance(n, SV) and not n.labels and getattr(n.e, "is_Integer", False):
+                    return seq * int(n.e)  # python sequence repetition
         if not isinstance(l, SV) or not isinstance(r, SV):
             self.err(f"operator on {type(l).__name__}, {type(r).__name__}", node)
         labels = self.broadcast(l, r, node)
@@ -580,13 +674,52 @@ class Extractor:
                             out.from_lab = non1[0]
                             return out
                 self.err(".size of this value", e)
+            if e.attr == "ndim":
+                if base.labels is None:
+                    self.err(".ndim of a value of unknown rank", e)
+                return SV(sp.Integer(len(base.labels)), [])
             if e.attr == "shape":
                 if base.labels is None:
                     self.err(".shape of a value of unknown rank", e)
                 return ShapeTuple([self.size_of(l) for l in base.labels], base.labels)
         self.err(f"attribute `{ast.unparse(e)}`", e)
 
+    def materialise_slice(self, sl):
+        """An index computed at run time (`recursed + (b,) + rest`, `slice(None, -1)`) as the equivalent literal subscript: slices and
+        None become syntax, every other entry a temporary name bound to the computed value."""
+        if isinstance(sl, (ast.Tuple, ast.Slice, ast.Constant)):
+            return sl
+        if not isinstance(sl, (ast.Name, ast.BinOp, ast.Call)):
+            return sl
+        try:
+            v = self.expr(sl)
+        except AnalysisError:
+            return sl
+        if not (isinstance(v, (tuple, slice)) and (isinstance(v, slice) or any(isinstance(x, slice) or x is None for x in v) or isinstance(sl, ast.BinOp))):
+            return sl
+
+        def piece(x):
+            if x is None:
+                return None
+            nm = f"__ix{next(self.counter)}"
+            self.env[nm] = x if isinstance(x, SV) else SV(sp.Integer(x), []) if isinstance(x, int) and not isinstance(x, bool) else x
+            return ast.Name(id=nm, ctx=ast.Load())
+
+        def conv(x):
+            if isinstance(x, slice):
+                return ast.Slice(lower=piece(x.start), upper=piece(x.stop), step=piece(x.step))
+            if x is None:
+                return ast.Constant(value=None)
+            return piece(x)
+        node = conv(v) if isinstance(v, slice) else ast.Tuple(elts=[conv(x) for x in v], ctx=ast.Load())
+        ast.copy_location(node, sl)
+        ast.fix_missing_locations(node)
+        return node
+
     def subscript(self, e):
+        new_slice = self.materialise_slice(e.slice)
+        if new_slice is not e.slice:
+            e = ast.copy_location(ast.Subscript(value=e.value, slice=new_slice, ctx=e.ctx), e)
         base = self.expr(e.value)
         if isinstance(base, ShapeTuple):
             i = self.expr(e.slice)
@@ -629,7 +762,7 @@ class Extractor:
                         self.err("partial slice next to a boolean mask", e)
                     continue
                 if v not in masks or lab is None or v.labels[0].base != lab.base:
-                    raise LabelMismatch(f"`{ast.unparse(e)[:70]}`: the boolean mask counts {v.labels if isinstance(v, SV) else v} but indexes axis {lab}", e)
+                    raise LabelMismatch(f"`{ast.unparse(e)[:70]}`: the boolean mask counts {v.labels if isinstance(v, SV) else v} but indexes axis {lab}", e, (v.labels[0].base if isinstance(v, SV) and v.labels else None, lab.base if lab is not None else None))
                 kinds = {str(m.args[0]) for m in v.e.atoms(sp.Function("MaskOver"))}
                 shell = lab.base[2] if isinstance(lab.base, tuple) and lab.base[:2] == ("dim", "K") else "?"
                 self.shared.setdefault("events", []).append(("K-filter:" + ",".join(sorted(kinds)), self.func, e, shell))
@@ -871,6 +1004,20 @@ class Extractor:
             v = self.expr(e.args[0])
             if isinstance(v, (tuple, list)):
                 return [(SV(sp.Integer(k), []), x) for k, x in enumerate(v)]
+        if d == "slice" and 1 <= len(e.args) <= 3 and not e.keywords:
+            def bound(a):
+                v = self.expr(a)
+                if v is None:
+                    return None
+                if isinstance(v, SV) and not v.labels:
+                    return int(v.e) if getattr(v.e, "is_Integer", False) else v
+                self.err("slice() bound", e)
+            vals = [bound(a) for a in e.args]
+            return slice(*vals)
+        if d == "len" and len(e.args) == 1:
+            v = self.expr(e.args[0])
+            if isinstance(v, (tuple, list)):
+                return SV(sp.Integer(len(v)), [])
         # method calls on values
         if isinstance(e.func, ast.Attribute) and not (d and d.split(".")[0] in ("np", "numpy")):
             recv = self.expr(e.func.value)
@@ -1029,7 +1176,11 @@ class Extractor:
         if attr == "sum":
             return self.reduce(recv, self.axis_arg(e, 0), "sum", e)
         if attr == "reshape":
-            args = e.args[0].elts if len(e.args) == 1 and isinstance(e.args[0], ast.Tuple) else e.args
+            args = e.args[0].elts if len(e.args) == 1 and isinstance(e.args[0], (ast.Tuple, ast.List)) else e.args
+            if len(e.args) == 1 and isinstance(e.args[0], ast.Name):
+                v = self.expr(e.args[0])
+                if isinstance(v, (tuple, list)):
+                    args = list(v)
             return self.reshape(recv, args, e)
         if attr in ("copy", "astype"):
             return recv
@@ -1177,7 +1328,7 @@ class Extractor:
                     raise LabelMismatch(f"`{ast.unparse(e)[:80]}`: axis out of range for operands with axes {x.labels} and {y.labels}", e)
                 lx, ly = x.labels[i], y.labels[j]
                 if lx.is_one() or ly.is_one() or (lx.base != ly.base and not self.compatible(lx, ly)):
-                    raise LabelMismatch(f"`{ast.unparse(e)[:80]}` contracts axis {lx} with axis {ly}", e)
+                    raise LabelMismatch(f"`{ast.unparse(e)[:80]}` contracts axis {lx} with axis {ly}", e, (lx.base, ly.base))
                 labs = [l for k, l in enumerate(x.labels) if k != i] + [l for k, l in enumerate(y.labels) if k != j]
                 out = SV(Contract(x.e * y.e, sp.Symbol("over_" + "_".join(str(z) for z in (lx.base if isinstance(lx.base, tuple) else (lx.base,))))), labs)
                 return out
@@ -1197,7 +1348,7 @@ class Extractor:
                         if lab.is_one():
                             continue
                         if ch in letter and letter[ch].base != lab.base and not self.compatible(letter[ch], lab):
-                            raise LabelMismatch(f"`{ast.unparse(e)[:80]}`: index `{ch}` joins axis {letter[ch]} with axis {lab}", e)
+                            raise LabelMismatch(f"`{ast.unparse(e)[:80]}`: index `{ch}` joins axis {letter[ch]} with axis {lab}", e, (letter[ch].base, lab.base))
                         letter.setdefault(ch, lab)
                     prod = prod * o.e
                 if any(ch not in letter for ch in outs) or len(set(outs)) != len(outs):
@@ -1369,8 +1520,36 @@ class ShapeTuple:
 
 
 class LabelMismatch(Exception):
-    def __init__(self, msg, node):
-        self.msg, self.node = msg, node
+    """involved: the bases of the axes that do not fit (None when the construct fails as a whole, e.g. an axis out of range)"""
+
+    def __init__(self, msg, node, involved=None):
+        self.msg, self.node, self.involved = msg, node, involved
+
+
+def store_outside_table(store, tab):
+    """True when on some table axis of constant extent N the smallest index the store can write is >= N (slice stores are then
+    empty, loop stores never run)."""
+    try:
+        tsyms = target_index_symbols(store)
+    except AnalysisError:
+        return False
+    for k, ts in enumerate(tsyms):
+        size = tab.sizes[k] if k < len(tab.sizes) else None
+        if size is None:
+            continue
+        size = sp.simplify(size)
+        low = sp.simplify(ts[1]) if ts[1] is not None else None
+        if getattr(size, "is_Integer", False) and low is not None and getattr(low, "is_Integer", False) and low >= size:
+            # constant integer indices beyond the extent would raise in numpy: only slices and (empty) loops are silent
+            ix = store.index[k]
+            if ix.kind in ("unit", "slice", "upto"):
+                return True
+            if ix.kind == "var":
+                lv = [(l, h) for v, l, h in store.loops if ix.value.has(v)]
+                if lv and all(getattr(sp.simplify(h - l), "is_nonpositive", False) for l, h in lv):
+                    return True  # the loop that would write there is empty
+    return False
+
 
 
 # ============================================================================================ stencil terms
@@ -1485,10 +1664,10 @@ def resolve_aranges(ex, store, coef):
         k = tab_axes[len(tl) - 1 - frm_right]
         tsym, tlo = tsyms[k][0], tsyms[k][1]
         if tlab.is_one() or tlab.unit:
-            raise LabelMismatch(f"`{store.text}`: an np.arange factor spans an axis on which the target has a single entry", store.node)
+            raise LabelMismatch(f"`{store.text}`: an np.arange factor spans an axis on which the target has a single entry", store.node, (("tab", "axis"),))
         s1, s2 = ex.size_of(lab), ex.size_of(tlab)
         if s1 is not None and s2 is not None and sp.simplify(s1 - s2) != 0:
-            raise LabelMismatch(f"`{store.text}`: an np.arange factor of length {s1} is broadcast against a target axis of length {s2}", store.node)
+            raise LabelMismatch(f"`{store.text}`: an np.arange factor of length {s1} is broadcast against a target axis of length {s2}", store.node, (("tab", "axis"),))
         # entry p of the window: arange value = start + lab.lo + p ; target index = tlo + p
         out = out.subs(ar, info["start"] + lab.lo + (tsym - tlo))
     return out
